@@ -46,6 +46,12 @@ Definition st_pop (s : st) (ms : list mode) : st := s <| s_modes := ms |> <| s_n
 Lemma pop_mode_cons s m ms : s_modes s = m :: ms -> Core.pop_mode s = st_pop s ms.
 Proof. intros H. unfold Core.pop_mode. rewrite H. reflexivity. Qed.
 
+Lemma lines_pos_pop s ms : lines_pos s -> lines_pos (st_pop s ms).
+Proof. exact (fun H => H). Qed.
+
+Lemma lines_pos_upd X ch ty pl : lines_pos X -> lines_pos (st_upd X ch ty pl).
+Proof. intros H. unfold st_upd. destruct (w_toks (s_buf X)); exact H. Qed.
+
 Definition st_eof (s : st) : st :=
   let s' := note_observe_lines s in
   let b := s_buf s' in
@@ -54,7 +60,7 @@ Definition st_eof (s : st) : st :=
 
 Lemma ex_final_eof s : lines_pos s -> exec false OFinalEOF s = Done tt (st_eof s).
 Proof.
-  intros [p H]. unfold exec, last_line_or_add, last_line. cbn [s_buf note_observe_lines].
+  intros [[p H] _]. unfold exec, last_line_or_add, last_line. cbn [s_buf note_observe_lines].
   replace (w_nlines (s_buf (note_observe_lines s))) with (w_nlines (s_buf s)) by reflexivity.
   rewrite H. change (N.pos p =? 0) with false. cbv iota. unfold st_eof. rewrite H. reflexivity.
 Qed.
@@ -62,6 +68,14 @@ Qed.
 (** the opening quote of a string expression in open code *)
 Definition st_dqstart (s : st) (r : list char) : st :=
   st_pend (Core.push_mode (st_emit (st_adv (st_start s) c_dquote r) CH_DEFAULT T_StringExprStart PNone) (MStringExpr true)) true.
+
+Lemma lines_pos_dqstart s r : lines_pos s -> lines_pos (st_dqstart s r).
+Proof.
+  intros H. unfold st_dqstart. apply lines_pos_pend, lines_pos_push_mode, lines_pos_emit, lines_pos_adv_start; [reflexivity|exact H].
+Qed.
+
+Lemma lines_pos_iters s i : lines_pos s -> lines_pos (s <| s_iters := i |>).
+Proof. exact (fun H => H). Qed.
 
 Lemma run_dquote_start F msep s r b :
   s_modes s = [MDefault] -> lines_pos s -> c_rest (s_cur s) = c_dquote :: r -> s_pstat s = [b] ->
@@ -99,8 +113,8 @@ Proof.
   rewrite ex_get. cbn [run].
   match goal with |- context [s_modes (scrub (st_pop ?X []))] => change (s_modes (scrub (st_pop X []))) with (@nil mode) end.
   unfold ret. cbn [run].
-  rewrite ex_final_eof; [reflexivity|]. destruct Hl as [p Hp]. exists p.
-  unfold st_upd. rewrite Ht2. exact Hp.
+  rewrite ex_final_eof; [reflexivity|].
+  apply lines_pos_pop, lines_pos_error, lines_pos_upd. unfold s2. apply lines_pos_start, lines_pos_pop. exact Hl.
 Qed.
 
 Lemma dqfin_views bb s1 b0 st0 ln0 ts :
@@ -114,6 +128,34 @@ Proof.
   intros Ht. unfold st_dqfin. set (s2 := st_start (st_pop s1 [MDefault])).
   assert (Ht2 : w_toks (s_buf s2) = mkTok CH_DEFAULT T_StringExprStart b0 st0 ln0 PNone :: ts) by exact Ht.
   unfold st_upd. rewrite Ht2. repeat split.
+Qed.
+
+Lemma lines_pos_eof s : lines_pos s -> lines_pos (st_eof s).
+Proof.
+  intros [Hp [Ho Hd]]. split; [exact Hp|]. unfold lines_good, st_eof, note_observe_lines. cbn [s_ghost set].
+  rewrite Ho, Hd. split; [reflexivity|exact Hd].
+Qed.
+
+Lemma lines_pos_dqfin s1 : lines_pos s1 -> lines_pos (st_dqfin s1).
+Proof.
+  intros H. unfold st_dqfin. apply lines_pos_eof, lines_pos_pop, lines_pos_error, lines_pos_upd, lines_pos_start, lines_pos_pop. exact H.
+Qed.
+
+Lemma dqfin_rest s1 : c_rest (s_cur (st_dqfin s1)) = c_rest (s_cur s1).
+Proof. unfold st_dqfin, st_upd. destruct (w_toks (s_buf (st_start (st_pop s1 [MDefault])))); reflexivity. Qed.
+
+(** the end of the text in open code: [finalize_lexing] appends the EOF token and leaves the line protocol intact *)
+Lemma finalize_default_lines f s :
+  s_modes s = [MDefault] -> lines_pos s ->
+  exists s', run false (finalize_lexing (S (S f))) s = Done tt s' /\ lines_pos s' /\ c_rest (s_cur s') = c_rest (s_cur s).
+Proof.
+  intros Hm [[p Hn] [Ho Hd]].
+  destruct s as [src srclen cur buf ctb cts ctl modes nmodes errs nerrs cp mnl pstat mark perr iters ab ld gh].
+  destruct cur as [rest_ rem off prev]. destruct buf as [lines nlines toks ntoks lit litlen].
+  destruct gh as [debt ok g3 g4 g5 g6 g7].
+  cbn in Hm, Hn, Ho, Hd. subst modes nlines debt ok.
+  eexists. split; [lazy; reflexivity|]. split; [|reflexivity].
+  split; [exists p; reflexivity|split; reflexivity].
 Qed.
 
 Section Whole.
@@ -192,7 +234,7 @@ Section Whole.
       - exact (oc_pstat _ _ _ HOC). }
     assert (Hm1 : s_modes s1 = [MStringExpr true; MDefault]).
     { change (s_modes s1) with (MStringExpr true :: s_modes s). rewrite (oc_modes _ _ _ HOC). reflexivity. }
-    assert (Hl1 : lines_pos s1) by exact (oc_lines _ _ _ HOC).
+    assert (Hl1 : lines_pos s1) by (unfold s1, si; apply lines_pos_dqstart, lines_pos_iters; exact (oc_lines _ _ _ HOC)).
     assert (Ht1 : w_toks (s_buf s1) = mkTok CH_DEFAULT T_StringExprStart (cur_byte s) (cur_char s) (w_nlines (s_buf s) - 1) PNone :: w_toks (s_buf s))
       by reflexivity.
     assert (Hrem : c_rem (s_cur s) = 1 /\ 1 <= s_srclen s).
@@ -246,13 +288,14 @@ Section Whole.
         (exists te tr, w_toks (s_buf s_fin) = te :: tr /\ t_type te = T_EOF) /\
         map (tv bb) (w_toks (s_buf s_fin)) = map rv T /\ map (ev bb) (s_errs s_fin) = map rve E /\
         w_lit (s_buf s_fin) = rs_lit rs_end /\
-        s_aborted s_fin = s_aborted s.
+        s_aborted s_fin = s_aborted s /\
+        lines_pos s_fin /\ c_rest (s_cur s_fin) = [].
   Proof.
     induction m as [m IH] using lt_wf_ind. intros s rs f fr last acc_t acc_e Hm HOC Hmf HF Hlim Hfuel Hfr Ht He.
     destruct (c_rest (s_cur s)) as [|c r] eqn:Hr.
     - (* end of input *)
       destruct f as [|f]; [lia|]. destruct fr as [|fr]; [lia|].
-      destruct (oc_lines _ _ _ HOC) as [p Hp].
+      destruct (oc_lines _ _ _ HOC) as [[p Hp] Hgood].
       exists s, rs, (mkRtok T_EOF CH_DEFAULT (cur_byte s + bb) PNone :: acc_t), acc_e.
       split; [apply main_loop_end; unfold peek; rewrite Hr; reflexivity|].
       split; [reflexivity|]. split; [lia|].
@@ -264,7 +307,10 @@ Section Whole.
       pose proof (f_equal o2_lit Ho2) as L2. pose proof (f_equal o2_errs Ho2) as E2.
       cbn [observe2 o2_lit o2_errs] in L2, E2.
       split; [rewrite Htok2; cbn [map]; rewrite Ht; reflexivity|].
-      split; [rewrite E2; exact He|]. split; [rewrite L2; exact (oc_lit _ _ _ HOC)|exact Hab2].
+      split; [rewrite E2; exact He|]. split; [rewrite L2; exact (oc_lit _ _ _ HOC)|]. split; [exact Hab2|].
+      destruct (finalize_default_lines fz s (oc_modes _ _ _ HOC) (oc_lines _ _ _ HOC)) as (s2' & Hf0' & Hl2 & Hr2).
+      rewrite Hf0 in Hf0'. assert (Es : s2 = s2') by (injection Hf0'; exact (fun H => H)). subst s2'.
+      split; [exact Hl2|]. rewrite Hr2. exact Hr.
     - destruct (list_eq_dec N.eq_dec (c :: r) [c_dquote]) as [Edq|Ndq].
       + (* an opening quote at the very end *)
         inversion Edq; subst c r. cbn [List.length] in Hm. subst m.
@@ -287,7 +333,9 @@ Section Whole.
         split; [exact R4|].
         split; [rewrite R3; cbn [map rv rt_type rt_chan rt_byte rt_payload]; rewrite Ht; replace (cur_byte s + 1 + bb) with (cur_byte s + bb + 1) by lia; reflexivity|].
         split; [rewrite R5; cbn [map rve re_kind re_byte]; rewrite He; replace (cur_byte s + 1 + bb) with (cur_byte s + bb + 1) by lia; reflexivity|].
-        split; [rewrite R6; exact (oc_lit _ _ _ HOC)|exact R7].
+        split; [rewrite R6; exact (oc_lit _ _ _ HOC)|]. split; [exact R7|].
+        split; [apply lines_pos_dqfin; unfold s1; apply lines_pos_dqstart, lines_pos_iters; exact (oc_lines _ _ _ HOC)|].
+        rewrite dqfin_rest. reflexivity.
       + pose proof (classes (c :: r) ltac:(discriminate) Hmf Ndq s rs HOC Hr ltac:(cbn [List.length] in *; lia)) as Hc.
         destruct fr as [|fr]; [lia|]. cbn [reflex_loop].
         destruct (lexeme (c :: r) (cur_byte s + bb) rs) as [[[ts es] n] rs'].
@@ -319,9 +367,9 @@ Section Whole.
         * rewrite Herrs', He. rewrite rev_append_rev, map_app, map_rev. reflexivity.
         * exists s_end, rs_end, T, E. split; [exact Hrun|]. split; [rewrite Habend; exact Hab'|]. split; [rewrite Hit' in Hitend; lia|]. split; [exact Hcfg|]. split.
           -- rewrite <- Hrf. rewrite Hrest', Hbyte. reflexivity.
-          -- intros fz. destruct (Hfin fz) as (s_fin & Hf & Heof & Hte & Hee & Hlit & Habe).
+          -- intros fz. destruct (Hfin fz) as (s_fin & Hf & Heof & Hte & Hee & Hlit & Habe & Hlf & Hrf').
              exists s_fin. split; [exact Hf|]. split; [exact Heof|]. split; [exact Hte|]. split; [exact Hee|]. split; [exact Hlit|].
-             rewrite Habe. exact Hab'.
+             split; [rewrite Habe; exact Hab'|]. split; [exact Hlf|exact Hrf'].
   Qed.
 
   (** the whole run on the text *)
@@ -339,7 +387,7 @@ Section Whole.
   Proof.
     intros _. constructor; try reflexivity.
     - apply init_InvPos.
-    - exists xH. reflexivity.
+    - split; [exists xH; reflexivity|split; reflexivity].
   Qed.
 End Whole.
 
@@ -371,7 +419,7 @@ Proof.
   - change (cur_byte (init text) + bb) with (blen text - blen text + bb) in Hrf.
     replace (blen text - blen text + bb) with bb in Hrf by lia.
     change (c_rest (s_cur (init text))) with text in Hrf. fold n. rewrite Hrf. rewrite Hrun.
-    destruct (Hfin (N.to_nat (s_nmodes s1))) as (s2 & Hf2 & (te & tr & Htok2 & Hte) & Ht2 & He2 & Hl2 & Hab2).
+    destruct (Hfin (N.to_nat (s_nmodes s1))) as (s2 & Hf2 & (te & tr & Htok2 & Hte) & Ht2 & He2 & Hl2 & Hab2 & _ & _).
     rewrite Hf2. cbn [lr_outcome lr_state lr_end lr_buffer lr_errors].
     split; [reflexivity|]. split; [rewrite Hab2; reflexivity|]. split; [|split; [|split; [|split; [|split; [|split]]]]].
     + rewrite into_detached_toks, map_map. unfold detached_toks. rewrite Htok2. rewrite Hte.
@@ -385,4 +433,30 @@ Proof.
     + rewrite (run_flag_release _ _ _ _ Hrun). reflexivity.
     + exact Hit1.
     + exact Hcfg1.
+Qed.
+
+(** the line protocol on the same texts: the run ends at the end of the text with the monitor on *)
+Theorem lex_text_lines text bb bc msep (P : list char -> bool) :
+  (forall c r, P (c :: r) = true -> P r = true) ->
+  (forall l, l <> [] -> P l = true -> l <> [c_dquote] ->
+     lexeme_sim text bb (S (List.length text)) msep (8 * (blen text + bb) + 64) l) ->
+  P text = true ->
+  let r := lex_text (mkCfg false msep) bb bc text in
+  lr_outcome r = None /\ lines_pos (lr_state r) /\ c_rest (s_cur (lr_state r)) = [].
+Proof.
+  intros Ptail classes Hmf. cbv zeta. unfold lex_text. cbn [dbg Base.msep].
+  set (n := List.length text).
+  destruct (loop_sim text bb (S n) msep (8 * (blen text + bb) + 64) P Ptail classes n (init text) rs0
+                     (8 * (4 * n) + 64 + 2 + 24)%nat (S n) (blen text + bb, [MDefault]) [] []
+                     eq_refl (OC_init text eq_refl) Hmf ltac:(lia))
+    as (s1 & rs1 & T & E & Hrun & Hab1 & Hit1 & Hcfg1 & Hrf & Hfin).
+  - cbn [init s_iters]. assert (N.of_nat n <= blen text); [|lia].
+    subst n. clear. induction text as [|c t IH]; [cbn; lia|]. cbn [List.length blen]. pose proof (utf8_len_pos c). lia.
+  - lia.
+  - lia.
+  - reflexivity.
+  - reflexivity.
+  - fold n. rewrite Hrun.
+    destruct (Hfin (N.to_nat (s_nmodes s1))) as (s2 & Hf2 & _ & _ & _ & _ & _ & Hl2 & Hr2).
+    rewrite Hf2. cbn [lr_outcome lr_state]. split; [reflexivity|]. split; [exact Hl2|exact Hr2].
 Qed.
